@@ -1,3 +1,51 @@
-/- Model for C06: not written yet -/
+import HapVerif.Model.C03
+import HapVerif.Model.C15
+/-!
+# C06 — same cluster state, same behaviour, whatever the processing order
+
+The model of the full sync (`Sync.fullSync`) takes the object lists of the cluster state in the order
+the API returned them; `Sync.route` takes the iteration order of Go's maps over the hosts of each
+frontend map as the parameter `π`.  This file adds
+
+* `permute`: the same cluster state with every object list reversed (used by the driver as a run-time
+  instance of the permutation theorems of `Props/C06.lean`);
+* `annOf`: the resolution of a backend-scoped annotation conflict (mapper.go: the first writer of a
+  key wins; writers arrive in the order of the accepted path declarations of the sorted ingresses);
+* `iterDependent`: whether the answer to a request depends on `π`.
+-/
 namespace HapVerif.C06
+open HapVerif.Sync
+open HapVerif.C04 (Str)
+
+def permute (w : World) : World :=
+  { w with ings := w.ings.reverse, svcs := w.svcs.reverse, eps := w.eps.reverse, secs := w.secs.reverse }
+
+/-- the parts of the configuration that behaviour depends on are equal -/
+def sameCfg (a b : Cfg) : Bool :=
+  a.paths = b.paths && a.tls = b.tls && a.hosts = b.hosts && a.backends = b.backends && a.dfltBackend = b.dfltBackend
+
+/-- accepted declarations with the annotations of their ingress, first-created first -/
+def effectiveAnn (w : World) : List (HPath × List (Str × Str)) :=
+  (((sortIngs (w.ings.filter (·.valid))).flatMap fun i => (declsOf i).map fun d => (d, i.ann)).filterMap
+    fun (d, a) => (C03.toHPath w d).map fun p => (p, a)).eraseDupsBy fun x y => C03.sameHP x.1 y.1
+
+/-- value of a backend-scoped configuration key: the first accepted declaration that links to the
+backend and whose ingress sets the key -/
+def annOf (w : World) (k : BKey) (key : Str) : Option Str :=
+  ((effectiveAnn w).filter fun x => x.1.bk = k).findSome? fun x => (x.2.find? (·.1 = key)).map (·.2)
+
+def perms {α} : List α → List (List α)
+  | [] => [[]]
+  | x :: xs => (perms xs).flatMap fun p => (List.range (p.length + 1)).map fun i => p.take i ++ x :: p.drop i
+
+/-- the answers to a request over all iteration orders of the map of its frontend -/
+def routesOverIter (c : Cfg) (r : Req) : List Str :=
+  let l := if r.tls then httpsPaths c else httpPaths c
+  let dfl := mapFiles (dfltPaths c) (hostsOfPaths (dfltPaths c))
+  (((perms (hostsOfPaths l)).take 720).map fun π =>
+    let fs := mapFiles l π
+    routeM c (if r.tls then ⟨[], fs, dfl⟩ else ⟨fs, [], dfl⟩) r).eraseDups
+
+def iterDependent (c : Cfg) (r : Req) : Bool := (routesOverIter c r).length > 1
+
 end HapVerif.C06
